@@ -761,6 +761,12 @@ func (e *Env) callExpr(n *ECall) Val {
 				"(= (select (kv_has (select (w_kv " + w1 + ") qs!s)) qs!k) (select (kv_has (select (w_kv " + w0 + ") qs!s)) qs!k)) " +
 				"(= (select (kv_val (select (w_kv " + w1 + ") qs!s)) qs!k) (select (kv_val (select (w_kv " + w0 + ") qs!s)) qs!k)))) " +
 				":pattern ((select (kv_has (select (w_kv " + w1 + ") qs!s)) qs!k)) :pattern ((select (kv_val (select (w_kv " + w1 + ") qs!s)) qs!k)))))")
+		case "addressModule":
+			fc.B.DeclFun("address_module", []string{"String", "String"}, "String")
+			return strVal("(address_module " + str(0) + " " + str(1) + ")")
+		case "bech32enc":
+			fc.B.DeclFun("bech32_enc", []string{"String"}, "String")
+			return strVal("(bech32_enc " + str(0) + ")")
 		case "kvOf":
 			// kvOf(w, svc): the key-value store of service svc in world w
 			return Val{S: "KV", T: "(select (w_kv " + argv(0).T + ") " + svcID(argv(1)) + ")"}
@@ -1030,6 +1036,25 @@ func (e *Env) callExpr(n *ECall) Val {
 					// external library function with a prelude model
 					if _, ok := staticPrelude[p+"."+sel.Name]; ok {
 						return e.preludeCall(p+"."+sel.Name, n.Args)
+					}
+					// package-level function variable of a dependency (e.g. sdk.MsgTypeURL): the same pure
+					// uninterpreted function the executor uses for calls through it
+					if tp := fc.W.typesPkg(p); tp != nil {
+						if v, ok := tp.Scope().Lookup(sel.Name).(*types.Var); ok {
+							if sig, ok := v.Type().Underlying().(*types.Signature); ok && sig.Results().Len() == 1 {
+								fn := "gfn_" + sanitize(shortPkg(p)) + "_" + sel.Name
+								var sorts, ts []string
+								for i := range n.Args {
+									a := argv(i)
+									sorts = append(sorts, a.S)
+									ts = append(ts, a.T)
+								}
+								rt := sig.Results().At(0).Type()
+								fc.B.DeclFun(fn, sorts, fc.B.SortOf(rt))
+								fc.trusted["function variable "+p+"."+sel.Name+" treated as a pure, never reassigned function"] = true
+								return fc.mkVal(rt, app(fn, ts...))
+							}
+						}
 					}
 					return e.fail("unknown function %s.%s", id.Name, sel.Name)
 				}
